@@ -1,8 +1,12 @@
 #[cfg(test)]
 mod tests;
 
+#[cfg(not(rws_verif))]
 use std::{thread};
+#[cfg(not(rws_verif))]
 use std::sync::{Arc, mpsc, Mutex};
+#[cfg(rws_verif)]
+use crate::verif::{thread, sync::{Arc, mpsc, Mutex}};
 
 pub struct ThreadPool {
     _workers: Vec<Worker>,
